@@ -29,7 +29,7 @@ use zipora::memory::{
 };
 
 const HEADER: &str = r#"From ZV.Common Require Import Base Run.
-From ZV.C07 Require Import Model ModelFive ModelTL Cases.
+From ZV.C07 Require Import Model ModelFive ModelTL ModelTiered Cases.
 Open Scope N_scope.
 Definition case_t := xcase.
 Definition ok := xok.
@@ -427,17 +427,59 @@ impl Drop for BasicPut { fn drop(&mut self) {
 } }
 
 // ---------------- TieredMemoryAllocator / MemoryMappedAllocator / NUMA / hugepages ----------------
-struct TieredPut { h: HashMap<u64, TieredAllocation>, a: TieredMemoryAllocator, global: bool }
+struct TieredPut { h: HashMap<u64, TieredAllocation>, a: TieredMemoryAllocator, global: bool,
+                   // model comparison: chunk address -> (creating pool, serial), observation of the current op, of all ops
+                   chunks: HashMap<usize, (u64, u64)>, serial: u64, pending: Vec<Option<i64>>, rec: Vec<Vec<Option<i64>>> }
+impl TieredPut {
+    /// (alloc_count, dealloc_count, pool_hits, chunks kept) of pool 0 (small) and pools 1..5 (medium classes of this thread)
+    fn pool_counts(&self) -> Vec<(u64, u64, u64, usize)> {
+        let st = self.a.stats();
+        std::iter::once(&st.small_pool_stats).chain(st.medium_pool_stats.iter()).map(|p| (p.alloc_count, p.dealloc_count, p.pool_hits, p.chunks)).collect()
+    }
+}
 impl Put for TieredPut {
     fn alloc(&mut self, id: u64, size: usize, _align: usize) -> Option<Blk> {
-        let mut t = if self.global { zipora::memory::tiered_allocate(size) } else { self.a.allocate(size) }.ok()?;
-        let blk = Blk { addr: t.as_ptr::<u8>() as usize, usable: t.size(), mem: true };
+        if self.global {
+            let mut t = zipora::memory::tiered_allocate(size).ok()?;
+            let blk = Blk { addr: t.as_ptr::<u8>() as usize, usable: t.size(), mem: true };
+            let _ = t.as_mut_slice().len();
+            self.h.insert(id, t);
+            return Some(blk);
+        }
+        let before = self.pool_counts();
+        let r = self.a.allocate(size);
+        let after = self.pool_counts();
+        let mut t = match r { Ok(t) => t, Err(_) => { self.pending = vec![None; 5]; return None; } };
+        let addr = t.as_ptr::<u8>() as usize;
+        let tier = match &t { TieredAllocation::Small(..) => 0i64, TieredAllocation::Medium(..) => 1, TieredAllocation::Large(..) => 2, _ => 3 };
+        self.pending = if tier >= 2 { vec![Some(tier), None, None, None, None] } else {
+            let j = (0..before.len().min(after.len())).find(|&j| after[j].0 != before[j].0);
+            match j { None => vec![Some(tier), Some(-1), None, None, None],
+                Some(j) => { let hit = after[j].2 != before[j].2;
+                    let (creator, serial) = if hit { self.chunks.get(&addr).copied().unwrap_or((99, 99)) }
+                                            else { let e = (j as u64, self.serial); self.serial += 1; self.chunks.insert(addr, e); e };
+                    vec![Some(tier), Some(j as i64), Some(hit as i64), Some(creator as i64), Some(serial as i64)] } } };
+        let blk = Blk { addr, usable: t.size(), mem: true };
         let _ = t.as_mut_slice().len();
         self.h.insert(id, t);
         Some(blk)
     }
-    fn free(&mut self, id: u64) -> bool { let t = self.h.remove(&id).unwrap(); if self.global { zipora::memory::tiered_deallocate(t).is_ok() } else { self.a.deallocate(t).is_ok() } }
+    fn free(&mut self, id: u64) -> bool {
+        let t = self.h.remove(&id).unwrap();
+        if self.global { return zipora::memory::tiered_deallocate(t).is_ok(); }
+        let addr = t.as_ptr::<u8>() as usize;
+        let pooled = matches!(&t, TieredAllocation::Small(..) | TieredAllocation::Medium(..));
+        let before = self.pool_counts();
+        let ok = self.a.deallocate(t).is_ok();
+        let after = self.pool_counts();
+        self.pending = if !pooled { vec![Some(9), Some(0)] } else {
+            match (0..before.len().min(after.len())).find(|&j| after[j].1 != before[j].1) {
+                None => vec![Some(-1), Some(0)],
+                Some(j) => { let kept = after[j].3 > before[j].3; if !kept { self.chunks.remove(&addr); } vec![Some(j as i64), Some(kept as i64)] } } };
+        ok
+    }
     fn cfg_align(&self) -> usize { 8 }
+    fn note(&mut self) { let p = std::mem::take(&mut self.pending); self.rec.push(p); }
 }
 impl Drop for TieredPut { fn drop(&mut self) { let hs: Vec<u64> = self.h.keys().copied().collect(); for id in hs { self.free(id); } } }
 
@@ -704,13 +746,29 @@ fn run_case(cx: &mut Ctx, c: &Value, force: bool) {
         }
         "tiered" => {
             let cell = "TieredMemoryAllocator";
-            cx.sum.eval(cell, &key, nontrivial); cx.sum.cell_status(cell, "S-only");
+            cx.sum.eval(cell, &key, nontrivial);
             let f = u(c, "flags");
             let cfg = if u(c, "preset") == 1 { TieredConfig::default() } else {
                 TieredConfig { enable_small_pools: f & 1 != 0, enable_medium_pools: f & 2 != 0, enable_mmap_large: f & 4 != 0, enable_hugepages: f & 8 != 0, ..TieredConfig::default() } };
+            let mcfg = format!("(mkTC {} {} {} {} {} {} false)", coq_bool(cfg.enable_small_pools), coq_bool(cfg.enable_medium_pools), coq_bool(cfg.enable_mmap_large),
+                               coq_bool(cfg.enable_hugepages), cfg.mmap_threshold, cfg.hugepage_threshold);
             let a = match guarded(|| TieredMemoryAllocator::new(cfg)) { Ok(Ok(a)) => a, _ => { cx.sum.dist("pool_new_refused"); return; } };
-            let mut put = TieredPut { h: HashMap::new(), a, global: u(c, "preset") == 2 };
-            drive(cx, cell, c, &mut put, &ops);
+            let global = u(c, "preset") == 2;
+            let mut put = TieredPut { h: HashMap::new(), a, global, chunks: HashMap::new(), serial: 0, pending: vec![], rec: vec![] };
+            if drive(cx, cell, c, &mut put, &ops).is_some() {
+                // model comparison: allocators of their own (the global one keeps its small pool across cases), on machines
+                // where hugepage requests are refused (the model's t_hp_ok = false), sizes the mmap tier can certainly serve
+                let hp_ok = HugePageAllocator::new().ok().map(|h| h.allocate(2 << 20).is_ok()).unwrap_or(false);
+                let sizes_ok = ops.iter().all(|o| o[0] != 0 || o[1] <= (64 << 20));
+                if !global && !hp_ok && sizes_ok && put.rec.len() == ops.len() && cx.room("tiered", force) {
+                    let mut cops = vec![]; let mut exp: Vec<String> = vec![];
+                    for (o, r) in ops.iter().zip(put.rec.iter()) {
+                        match o[0] { 0 => cops.push(format!("TAl {}", o[1])), 1 => cops.push(format!("TFr {}", o[1])), _ => continue }
+                        for x in r { exp.push(coq_oz(&x.map(|v| v as i128))); }
+                    }
+                    cx.shards.push(format!("XTi {} [{}] [{}]", mcfg, cops.join("; "), exp.join("; ")), c.clone());
+                }
+            }
         }
         "mmap" => {
             let cell = "MemoryMappedAllocator";
@@ -918,7 +976,8 @@ fn generate(cx: &mut Ctx, args: &Args) {
     for i in 0..rounds {
         // weights: the two modelled pools and the size-class pools get most cases
         for which in [0u64, 0, 0, 1, 2, 2, 3, 3, 4, 5, 6, 7, 8, 9] {
-            if (which == 7 || which == 8 || which == 9 || which == 5 || which == 6) && i % 3 != 0 { continue; }
+            if (which == 8 || which == 9 || which == 6) && i % 3 != 0 { continue; }
+            if (which == 7 || which == 5) && i % 3 == 2 { continue; }
             if only.map(|o| o != which).unwrap_or(false) { continue; }
             let c = gen_case(&mut rng, which, &bins);
             if i < 1 { cx.sum.sample(json!({"cell": c["cell"], "ops": c["ops"].as_array().map(|a| a.iter().take(6).cloned().collect::<Vec<_>>())})); }
